@@ -15,6 +15,7 @@ import (
 
 	"verif/internal/enum"
 	"verif/internal/ev"
+	"verif/internal/racepass"
 )
 
 var (
@@ -620,4 +621,7 @@ func Run(r *ev.Run) {
 	}
 	r.Set("states", total)                        // model inputs (each is one initial state of the pure function)
 	r.Set("traces_validated_against_impl", total) // every model trace is replayed on the real Targets
+	// supplementary and sampled; reported separately, never counted as exploration: enumerations of DIFFERENT results at the same
+	// time share nothing, so the detector must stay silent and every enumeration equals the one made alone
+	racepass.Run(r, "./checks/c15/racepass/", "concurrent enumerations of the targets of different results", "8 goroutines x 2000 enumerations of 8 different results")
 }
